@@ -2161,7 +2161,28 @@ impl<'a> VisitMut for Rules<'a> {
                                             let mut dr = DerefReplacer { ident: xid.ident.to_string(), rep: syn::parse_quote!(#recv[#ii]), n: 0 };
                                             dr.visit_block_mut(&mut body);
                                             if mentions(&body, &xid.ident.to_string()) {
-                                                crate::lost(&format!("R4: `{}` of an iter_mut().enumerate() loop is used other than as `*{}`", xid.ident, xid.ident));
+                                                // R4t: the element is used as a whole (method calls, indexing): take it out, run the unchanged body on the owned
+                                                // element, write it back (only without `continue`, which would skip the write-back)
+                                                if !self.ctx.on("R56") || has_own_continue(&fl.body) {
+                                                    crate::lost(&format!("R4: `{}` of an iter_mut().enumerate() loop is used other than as `*{}`", xid.ident, xid.ident));
+                                                }
+                                                let x = xid.ident.clone();
+                                                let ostmts = &fl.body.stmts;
+                                                let label = fl.label.clone();
+                                                let new: syn::Expr = syn::parse_quote!({
+                                                    let #nn = #recv.len();
+                                                    #label for #ii in 0..#nn {
+                                                        let #ipat = #ii;
+                                                        let mut #x = vx_vec_take(&#recv, #ii);
+                                                        #(#ostmts)*
+                                                        #recv.set(#ii, #x);
+                                                    }
+                                                });
+                                                *e = new;
+                                                self.ctx.used("R4");
+                                                self.ctx.used("R56");
+                                                syn::visit_mut::visit_expr_mut(self, e);
+                                                return;
                                             }
                                             let stmts = &body.stmts;
                                             let label = fl.label.clone();
